@@ -49,6 +49,8 @@ def gen_pipeline(ch, prof):
         out["user"].append({"resubmit_stage": k, "flags": g.pick([["--successful"], [], ["--successful", "--no-failed"]]),
                             "after_stage_event": g.pick(["sbatch", "job_launch", "job_exit"]),
                             "delay": g.pick([0.0, 0.5, 5.0])})
+    # auto-config pipeline (jade pipeline create -a ...): JADE runs the user's script before each stage
+    out["pipeline"]["auto"] = {"on": g.flip(0.45), "dur": g.pick([0.0, 0.0, 0.5, 5.0])}
     return out
 
 
@@ -62,7 +64,14 @@ def materialise_pipeline(sc, w):
         build_job_config(st, st["jobs"], st["groups"], st.get("hooks", {}), path)
         files.append(path)
     sp = SubmitterParams(**sc["pipeline"]["stages"][0]["groups"][0]["params"])
-    PipelineManager.create_config_from_files(files, os.path.join(w.shared_root, "pipeline.json"), sp)
+    if (sc["pipeline"].get("auto") or {}).get("on"):
+        # relative config-stage<k>.json names resolve against the (shared) working directory
+        os.chdir(w.shared_root)
+        PipelineManager.create_config_from_commands([f"simautoconfig {i + 1}" for i in range(len(files))],
+                                                    os.path.join(w.shared_root, "pipeline.json"), sp)
+        w.probe("pipeline_auto_config")
+    else:
+        PipelineManager.create_config_from_files(files, os.path.join(w.shared_root, "pipeline.json"), sp)
 
 
 class PipelineDriver(Driver):
@@ -175,6 +184,7 @@ class C15(Monitor):
         self.submit_cmds = {}  # stage number -> count of submissions (Cluster.create) observed
         self.stage_by_node = 0
         self.first_results = {}
+        self.autoconfigs = {}
 
     def _stage_no(self, sub):
         return int(sub.outrel.rsplit("stage", 1)[1])
@@ -221,6 +231,8 @@ class C15(Monitor):
                              f"stage {n}: cluster state created again at seq {seq}")
                 if w.node_job(w.vprocs[vpid]) is not None:
                     w.probe("pipeline_stage_on_node")
+        elif kind == "autoconfig":
+            self._autoconfig(seq, d)
         elif kind == "sbatch" and d.get("attempt", 1) == 1:
             sub = self.ctx.sub_for_path(d.get("output"))
             if sub is not None:
@@ -229,6 +241,36 @@ class C15(Monitor):
             sub = self.ctx.sub_for_abs((d.get("env") or {}).get("JADE_RUNTIME_OUTPUT"))
             if sub is not None:
                 self._mark(sub, "launch", seq)
+
+    def _autoconfig(self, seq, d):
+        """JADE invokes the user's configuration script of stage k: the previous stage must be complete,
+        and the status file JADE points the script to must record that (docs/source/pipeline.rst:
+        'provide information about completed stages and their outputs')."""
+        k = d["stage"]
+        self.w.probe("pipeline_autoconfig_run")
+        self.autoconfigs[k] = self.autoconfigs.get(k, 0) + 1
+        if self.autoconfigs[k] > 1:
+            self.bad("stage_configured_twice", "a pipeline stage was configured more than once", f"stage {k} at seq {seq}")
+        env = d.get("env") or {}
+        if (env.get("JADE_PIPELINE_STATUS_FILE") != "pipeline/pipeline.json" or env.get("JADE_PIPELINE_OUTPUT_DIR") != "pipeline"
+                or env.get("JADE_PIPELINE_STAGE_ID") != str(k)):
+            self.bad("autoconfig_env", "a stage's configuration script was run without the documented pipeline environment",
+                     f"stage {k}: {env}")
+        if k > 1:
+            prev = self.ctx.subs.get(f"pipeline/output-stage{k - 1}")
+            cs = min(prev.complete_seq.values()) if prev is not None and prev.complete_seq else None
+            if cs is None or cs > seq:
+                self.bad("stage_started_early", "a stage was configured or submitted before the previous stage completed",
+                         f"stage {k}: configured at seq {seq}; stage {k - 1} complete at {cs}")
+        st = d.get("status")
+        if st is None:
+            self.bad("status_unreadable_at_configure", "the pipeline status file could not be read by a stage's configuration script",
+                     f"stage {k} at seq {seq}")
+            return
+        rcs = st.get("return_codes") or []
+        if st.get("stage_num") != k or any(rc is None for rc in rcs[:k - 1]) or any(rc is not None for rc in rcs[k - 1:]):
+            self.bad("status_stale_at_configure", "the status file given to a stage's configuration script does not record "
+                     "the completed stages", f"stage {k} at seq {seq}: stage_num={st.get('stage_num')} return_codes={rcs}")
 
     def on_status(self, sub, o):
         if o.get("completed_now") and sub.outrel not in self.first_results:
